@@ -11,4 +11,5 @@ FeePkts == {p \in [link : {1, 2}, fee : {4101, 4357, 8197}, size : Sizes] : << p
 BatchPkts == {[link |-> 1, fee |-> 4101, size |-> 80]}
 BatchFilters == {NoFilter, [k |-> "link", v |-> 1], [k |-> "link", v |-> 2]}
 FeeFilters == {[k |-> "fee", v |-> f] : f \in {4101, 4357, 8197, 4102}} \cup {[k |-> "stave", v |-> x] : x \in {69, 133, 197}}
+              \cup {[k |-> "link", v |-> n] : n \in 1..2}        \* (link filters on streams where a FEE id is not tied to one link)
 ===============================================================================
